@@ -312,8 +312,10 @@ def c15(ctx):
             "{-,EX,PX,EXAT,PXAT}, Expire/PExpire, GetPut, Incr, Decr, IncrByFloat, Lock (+Lease, Unlock) with and without timeout, Delete of 1-4 keys "
             "spread over members; paths = embedded on each member, raw RESP to each member, cluster client, pipeline; each case's replies and follow-up "
             "reads (value, reported ttl, visibility after the deadline) are judged against Register.tla, so paths are compared with the specification and "
-            "thereby with each other; every case is distinct and non-trivial (it changes or probes the stored entry)")
-    return reg_run(ctx, "TestC15", "c15.ndjson", "c15.summary.json", {"VERIF_FRACTION": 35 if quick else 100},
+            "thereby with each other; plus pipelines that carry 24 operations of every kind at once, one per key; cluster shapes: N=3 R=2 (quick), and N in 1..3 x R in 1..3 "
+            "with single- and multi-table fragments (thorough); every case is distinct and non-trivial (it changes or probes the stored entry)")
+    return reg_run(ctx, "TestC15", "c15.ndjson", "c15.summary.json",
+                   {"VERIF_FRACTION": 35 if quick else 100, "VERIF_C15_SHAPES": 1 if quick else 5, "VERIF_BATCHES": 4 if quick else 12},
                    [], rule, "path equivalence", tags_of=ttl_tags)
 
 
